@@ -5,6 +5,7 @@ import gen
 
 DISTS = ['shortest', 'perpendicular']
 ORDERS = ['triangle', 'area', 'segment']
+CORD = {'triangle': 'OTriangle', 'area': 'OArea', 'segment': 'OSegment'}
 NFULL = 8          # complete O(n^2) oracle tables up to this size; above: the segments of the implementation's chain
 
 
@@ -12,9 +13,23 @@ NFULL = 8          # complete O(n^2) oracle tables up to this size; above: the s
 # tie-rich curves (on top of gen.curve): symmetric / periodic integer curves, collinear runs
 
 def tie_curve(rng, n):
-    fam = rng.choice(['sym', 'sym', 'periodic', 'periodic', 'vee', 'runs', 'flat', 'twolevel', 'sloped', 'sloped'])
+    fam = rng.choice(['sym', 'sym', 'periodic', 'periodic', 'vee', 'runs', 'flat', 'twolevel', 'sloped', 'sloped', 'jagged', 'jagged', 'jagged'])
     xs = [float(i) for i in range(n)]
-    if fam == 'sloped':
+    if fam == 'jagged':
+        # non-monotone small-integer zigzags (e.g. y = 4,6,0,1,0,4): points project outside the chord, so the shortest and the
+        # perpendicular distance differ and the ordering scores depend on which one is configured
+        if rng.random() < 0.5:
+            xs = gen.xs_increasing(rng, n, 'int')
+        hi = rng.choice([4, 6, 9])
+        ys = []
+        for i in range(n):
+            if rng.random() < 0.35:
+                ys.append(float(rng.choice([0, 0, 1])))
+            else:
+                ys.append(float(rng.randint(0, hi)))
+        if n == 6 and rng.random() < 0.1:
+            ys = [4.0, 6.0, 0.0, 1.0, 0.0, 4.0]
+    elif fam == 'sloped':
         # collinear runs on an irregular integer grid with slopes whose chord distances carry rounding noise
         # (the inputs of the pinned defects D2 / D3: e.g. [[0,0],[1,9],[3,27]])
         xs = gen.xs_increasing(rng, n, 'int')
@@ -81,28 +96,43 @@ def dist_value(rdp, lf, pts, dist, l, r):
     return [float(v) for v in _dp(rdp, lf, dist)(pt, pt[0], pt[-1])]
 
 
-def prio_value(rdp, lf, pts, dist, order, l, r):
-    """priority of the segment points[l:r] as rdp.order_* computes it for a child; evaluated as a left child and as
-    a right child of an enclosing range whenever both exist (they must coincide: the priority is a function of the
-    segment only).  Returns (value, consistent)"""
+def order_fn(rdp, lf, dist, order):
     dp = _dp(rdp, lf, dist)
-    n = len(pts)
+    if order == 'triangle':
+        return lambda pt, index: rdp.order_triangle(pt, index, dp)
+    if order == 'area':
+        return lambda pt, index: rdp.order_area(pt, index, dp)
+    return lambda pt, index: rdp.order_segment(pt, index)
 
-    def order_fn(pt, index):
-        if order == 'triangle':
-            return rdp.order_triangle(pt, index, dp)
-        if order == 'area':
-            return rdp.order_area(pt, index, dp)
-        return rdp.order_segment(pt, index)
-    vals = []
-    if r < n:          # left child of points[l:n] split at r-1
-        vals.append(float(order_fn(pts[l:n], r - 1 - l)[0]))
-    if l > 0:          # right child of points[0:r] split at l
-        vals.append(float(order_fn(pts[0:r], l)[1]))
-    if not vals:       # the root: never a child
-        return None, True
-    ok = all((v == vals[0]) or (v != v and vals[0] != vals[0]) for v in vals)
-    return vals[0], ok
+
+def observed_scores(rdp, lf, pts, dist, order, chain_sets):
+    """what rdp.order_<order>(points[a:b+1], g-a, distance_points) returns for every split the chain performs:
+    [[l, r], score] for the child segments with interior points"""
+    f = order_fn(rdp, lf, dist, order)
+    out, seen = [], set()
+    for S, S1 in zip(chain_sets, chain_sets[1:]):
+        if not S or not S1 or len(S1) != len(S) + 1:
+            continue
+        new = [g for g in S1 if g not in S]
+        if len(new) != 1 or sorted(S + new) != S1:
+            continue
+        g = new[0]
+        par = [(a, b) for a, b in zip(S, S[1:]) if a < g < b]
+        if not par:
+            continue
+        a, b = par[0]
+        if b + 1 > len(pts) or (a, b) in seen:
+            continue
+        seen.add((a, b))
+        st, res = call(f, pts[a:b + 1], g - a)
+        if st != 'ok':
+            continue
+        lc, rc = res
+        if g + 1 - a >= 3:
+            out.append([[a, g + 1], float(lc)])
+        if b + 1 - g >= 3:
+            out.append([[g, b + 1], float(rc)])
+    return out
 
 
 def wide_segments(S):
@@ -110,6 +140,9 @@ def wide_segments(S):
 
 
 def build_tables(rdp, lf, pts, dist, order, index_sets, full):
+    """dt: configured distance on every tabulated segment; ct: chord length np.linalg.norm(points[l] - points[r-1]) (order = triangle);
+    rt: lf.linear_fit_residuals_points(points[l:r]) (order = segment).  Priorities are DERIVED from these inside Coq."""
+    import numpy as np
     n = len(pts)
     segs = set()
     if full:
@@ -121,14 +154,16 @@ def build_tables(rdp, lf, pts, dist, order, index_sets, full):
             for (l, r) in wide_segments(S):
                 if 0 <= l and r <= n:
                     segs.add((l, r))
-    dt, ptab, ok = [], [], True
+    dt, ct, rt = [], [], []
     for (l, r) in sorted(segs):
         dt.append([[l, r], dist_value(rdp, lf, pts, dist, l, r)])
-        v, c = prio_value(rdp, lf, pts, dist, order, l, r)
-        ok = ok and c
-        if v is not None:
-            ptab.append([[l, r], v])
-    return dt, ptab, ok
+        if (l, r) == (0, n):
+            continue
+        if order == 'triangle':
+            ct.append([[l, r], float(np.linalg.norm(pts[l] - pts[r - 1]))])
+        elif order == 'segment':
+            rt.append([[l, r], float(lf.linear_fit_residuals_points(pts[l:r]))])
+    return dt, ct, rt
 
 
 def as_nat_list(a):
@@ -193,13 +228,15 @@ class C05:
     judge_module = 'Run.JudgeC05'
     rule = ('one case = one curve x distance x order with the whole chain rdp_fixed(points, k), k = 0..n+1; curves: 60% tie-rich '
             '(symmetric / periodic / V-shaped / flat / collinear-run integer curves on a unit grid), 40% the shared families; '
-            '2 distances x 3 orders round-robin; non-trivial = the chain has >= 3 distinct sizes; distinct by (points, distance, order)')
+            'incl. jagged non-monotone integer zigzags where points project outside the chord; 2 distances x 3 orders round-robin; non-trivial = the chain has >= 3 distinct sizes; distinct by (points, distance, order)')
     assumptions = ['length/min_points are non-negative integers (the property quantifies over k in 0..n+1)',
                    'shape of the distance oracle: len(distance_points(points[l:r], ...)) = r - l (checked on every table)',
                    'greedy clause: priorities present are non-NaN (Tier O); cases with a NaN priority are judged on size/nesting/farthest only',
                    'farthest clause: the interior distances of the split segment are non-NaN (Tier O), else skipped for that step']
     trusted = ['modelled: rdp._rdp_fixed / rdp_fixed (stack as a Python list, stable list.sort as stable insertion sort, pop() = last)',
-               'oracles: lf.shortest_distance_points / perpendicular_distance_points and rdp.order_* evaluated by the harness on the sub-arrays']
+               'oracles: lf.shortest_distance_points / perpendicular_distance_points (configured distance), np.linalg.norm of the chord, '
+               'lf.linear_fit_residuals_points, evaluated by the harness on the sub-arrays; the ordering scores are DERIVED in Coq '
+               '(0.5*chord*max(dist), pairwise np.sum(dist), residual) and compared bit-for-bit with what rdp.order_* returns']
     timeout = 30.0
     shard = 60
 
@@ -228,7 +265,7 @@ class C05:
     def on_timeout(self, c):
         c = dict(c)
         c['outs'] = [None] * (len(c['points']) + 2)
-        c['dt'], c['pt'] = [], []
+        c['dt'], c['ct'], c['rt'], c['ot'] = [], [], [], []
         c['timeout'] = True
         return c
 
@@ -246,12 +283,14 @@ class C05:
             outs.append(as_out(st, out))
         c['outs'] = outs
         sets = [o[0] for o in outs if o is not None]
-        c['dt'], c['pt'], c['prio_consistent'] = build_tables(rdp, lf, pts, c['dist'], c['order'], sets, n <= NFULL)
+        c['dt'], c['ct'], c['rt'] = build_tables(rdp, lf, pts, c['dist'], c['order'], sets, n <= NFULL)
+        c['ot'] = observed_scores(rdp, lf, pts, c['dist'], c['order'], [o[0] if o is not None else None for o in outs])
         return c
 
     def emit(self, c):
         n = len(c['points'])
-        return 'CChain %s %s %s %s' % (cnat(n), cdtab(c['dt']), cptab(c['pt']), clist([cout(o) for o in c['outs']]))
+        return 'CChain %s %s %s %s %s %s %s' % (cnat(n), CORD[c['order']], cdtab(c['dt']), cptab(c['ct']), cptab(c['rt']),
+                                                 cptab(c['ot']), clist([cout(o) for o in c['outs']]))
 
     def nontrivial_key(self, c):
         sizes = {len(o[0]) for o in c['outs'] if o is not None}
@@ -261,10 +300,9 @@ class C05:
 
     def classify(self, c):
         n = len(c['points'])
-        nanp = any(v != v for _, v in c.get('pt', []))
-        ties = len({v for _, v in c.get('pt', [])}) < len(c.get('pt', []))
+        sc = [v for _, v in c.get('ot', [])]
         return {'n': n if n <= 12 else (n // 8) * 8, 'family': c.get('family', '?'), 'config': c['dist'] + '/' + c['order'],
-                'nan_priority': nanp, 'tied_priorities': ties, 'prio_consistent': c.get('prio_consistent', True),
+                'nan_score': any(v != v for v in sc), 'tied_scores': len(set(sc)) < len(sc), 'scores_observed': min(len(sc), 20),
                 'exceptions': sum(1 for o in c['outs'] if o is None)}
 
     def shrink(self, c):
